@@ -532,6 +532,10 @@ CORPUS: list[tuple[str, bytes]] = [
     ("yaml-null-key", b"openapi: 3.0.0\ninfo: {title: x, version: '1'}\npaths: {~: {}}\n"),
     ("yaml-binary", b"openapi: 3.0.0\ninfo: {title: !!binary aGVsbG8=, version: '1'}\npaths: {}\n"),
     ("yaml-set", b"openapi: 3.0.0\ninfo: {title: x, version: '1'}\npaths: !!set {a, b}\n"),
+    ("yaml-mapping-key-is-mapping", b"{.: {t: {{[{}]}}}}"),
+    ("yaml-complex-key", b"? {a: 1}\n: 2\nopenapi: 3.0.0\n"),
+    ("yaml-seq-key", b"? [a, b]\n: 1\n"),
+    ("yaml-flow-map-key", b"{{a: 1}: 2}"),
     ("yaml-huge-int", b"openapi: 3.0.0\ninfo: {title: x, version: '1'}\npaths: {}\nx-n: " + b"9" * 400 + b"\n"),
     ("json-nan", b"{\"openapi\": \"3.0.0\", \"info\": {\"title\": \"x\", \"version\": \"1\"}, \"paths\": {}, \"x\": NaN}"),
     ("json-trailing", b"{\"openapi\": \"3.0.0\"} trailing"),
